@@ -275,11 +275,17 @@ func vh_cookie_ack() {
 	e, ctx := c.vhListener()
 	s := c.vhHandshakeSeg()
 	s.flags = flagAck
+	// the ACK that completes the handshake may already carry the first bytes of the stream
+	// (the bare ACK was lost and the first data segment validates the cookie)
+	if k := vnChoice("ackdata", 3); k > 0 {
+		s.data = buffer.NewVectorisedView(k, []buffer.View{buffer.View(vhData(s.sequenceNumber, k))})
+	}
 	c.net.Sent = nil
 	e.handleListenSegment(ctx, s)
 	if len(e.acceptedChan) == 1 {
 		n := <-e.acceptedChan
 		vassert(n.snd.sndUna == s.ackNumber && n.rcv.rcvNxt == s.sequenceNumber, "a connection created from a cookie ACK continues at exactly the acknowledged and received sequence numbers")
+		vassert(len(vhRcvListBytes(n)) == 0 || vhConsistent(s.sequenceNumber, vhRcvListBytes(n)), "bytes carried by that ACK are either delivered as the head of the stream or left to be retransmitted, never skipped")
 		vassert(n.state == stateConnected && n.snd.maxPayloadSize >= 1, "the endpoint is connected")
 		vreach("accepted")
 	} else {
